@@ -3,7 +3,6 @@ From Coq Require Import ZArith QArith Qround List Bool Lia Lqa Sorting.Sorted.
 Require Import SC3.model.Osc SC3.model.KProg SC3.model.KNrt SC3.model.KScore.
 Require Import SC3.proofs.C06_base SC3.proofs.C06_size SC3.proofs.C06_readers SC3.proofs.C06_roundtrip.
 Require Import SC3.proofs.C05_frame SC3.proofs.C07_stamp SC3.proofs.C07_runs SC3.proofs.C07_props.
-Require SC3.props.C06.
 Import ListNotations.
 
 (* ---- the splitter inverts the concatenation --------------------------------------------------- *)
@@ -95,8 +94,17 @@ Lemma entry_decodes nc i t g es d :
 Proof.
   intros H. destruct (to_arg_guards nc (SBundle i t g es)) as [Hf Hg]. cbn [to_arg] in *.
   rewrite floats4_list in Hf. cbn [forallb floats4] in Hf.
-  destruct (SC3.props.C06.bundle_roundtrip nc (Some t) g (map to_arg es) d Hf Hg H) as (cs & A & B).
-  exists cs. split; auto. constructor. exact B.
+  (* C06's bundle round trip, from its main induction rt_all (same steps as props/C06.v bundle_roundtrip; props/C06.v is
+     not imported so that this file does not depend on everything C06 proves) *)
+  assert (Hf' : floats4 (AList (ATime (Some t) g :: map to_arg es)) = true) by (rewrite floats4_list; exact Hf).
+  destruct (rt_all nc _ Hf' Hg d H (S (length d)) (Nat.lt_succ_diag_r _)) as (pk & Hp & Hex).
+  inversion Hex as [| lat' tag' elems' cs Hcs]; subst.
+  exists cs. split; [|constructor; exact Hcs].
+  unfold parse_any in Hp. unfold parse_bundle_top.
+  rewrite build_pkt_bundle in H. apply bind_ok in H as (ds & _ & H). apply bind_ok in H as (d0 & He & H).
+  pose proof (check_bundle_ok _ _ H) as ->.
+  unfold enc_bundle in He. apply bind_ok in He as (tt & _ & He). apply bind_ok in He as (bb & _ & He). inv_ok He.
+  change (is_bundle (bundle_prefix ++ tt ++ bb)) with true in Hp. exact Hp.
 Qed.
 
 (* ---- shape of the entries of a finished score -------------------------------------------------- *)
